@@ -909,7 +909,7 @@ def make_history(spec):
 
 CORPUS = ["subset_index", "unstable_sort", "nested_pad", "fill_unattached", "empty_self_nested", "empty_other_sharing",
           "text_narrow_then_wide", "text_wide_then_narrow", "text_99_100", "text_100_99", "text_u99_u100", "text_u100_u99",
-          "text_merge_widths"]
+          "text_merge_widths", "empty_self_toplevel"]
 
 
 def corpus_history(name):
@@ -931,6 +931,12 @@ def corpus_history(name):
     elif name == "empty_self_nested":
         h.start(rk + [fd("grp.g1", "float"), fd("grp.gt", "text")], 0)
         h.extend(build_real(rk + [fd("grp.g1", "float")], 1, 100))
+    elif name == "empty_self_toplevel":
+        # a dataset emptied by subset keeps its fields; fields only self has are padded when it is extended
+        h.start(rk + [fd("tx", "text"), fd("f1", "float", unit=("meter",)), fd("sat", "position")], 3)
+        h.subset_mask([False, False, False])
+        h.extend(build_real(rk + [fd("f1", "float", unit=("meter",))], 2, 100))
+        h.merge([build_real(rk + [fd("tx", "text")], 2, 200, "wide")], "rid")
     elif name.startswith("text_"):
         # string dtypes of different widths on the two sides (U9 / U10.., U99 / U100), 1-d and 2-d, both directions
         tsch = rk + [fd("tx", "text"), fd("t2", "text", two=True, w=2), fd("grp.gt", "text")]
